@@ -782,6 +782,14 @@ func TestVerifC11(t *testing.T) {
 			}
 		}
 	}
+	// frame_length smaller than the header: uint16(frame_length - header) wraps to 65529 (65527 with
+	// CRC); with that many bytes behind the header Decode returns them as one "raw block", with
+	// fewer it reports "requires n" (outside the property: not a conformant frame; the model
+	// carries the same wrap, see c11_length_underflow_quirk)
+	for _, n := range []int{65528, 65529, 65530} {
+		runOne(vL(vZ(2), vB(append([]byte{0xff, 0xf1, 0x50, 0x80, 0x00, 0x00, 0xfc}, make([]byte, n)...))))
+	}
+	runOne(vL(vZ(2), vB(append([]byte{0xff, 0xf0, 0x50, 0x80, 0x00, 0x00, 0xfc, 1, 2}, make([]byte, 65527)...))))
 	// exhaustive: all 65536 two-byte configs, all 256 enum values
 	for hi := 0; hi < 256; hi++ {
 		runOne(vL(vZ(5), vI(hi)))
